@@ -69,10 +69,22 @@ def alloc_section():
     progp = Program(["pvl.parser"])
     ci, fn = progp.function("pvl.parser.ODLParser.parse_units")
     # (wherever the test is written: in the `if`, or in a named boolean the `if` uses)
-    tests = [ast.unparse(n) for n in ast.walk(fn) if isinstance(n, ast.Call) and isinstance(n.func, ast.Name)
+    # the class argument may be written out or be a local assigned once from self.decoder.real_cls
+    stores = {}
+    for n in ast.walk(fn):
+        if isinstance(n, ast.Name) and isinstance(n.ctx, ast.Store):
+            stores[n.id] = stores.get(n.id, 0) + 1
+    alias = {n.targets[0].id for n in ast.walk(fn) if isinstance(n, ast.Assign) and len(n.targets) == 1
+             and isinstance(n.targets[0], ast.Name) and stores.get(n.targets[0].id) == 1
+             and ast.unparse(n.value) == "self.decoder.real_cls"}
+
+    def names_real_cls(e):
+        return any(ast.unparse(x) == "self.decoder.real_cls" or (isinstance(x, ast.Name) and x.id in alias) for x in ast.walk(e))
+    calls = [n for n in ast.walk(fn) if isinstance(n, ast.Call) and isinstance(n.func, ast.Name)
              and n.func.id == "isinstance" and len(n.args) == 2 and ast.unparse(n.args[0]) == "value"]
+    tests = [ast.unparse(n) for n in calls]
     ob("ODLParser.parse_units:numeric-guard-includes-the-configured-real_cls",
-       any("self.decoder.real_cls" in t for t in tests), tests, "pvl.parser.ODLParser.parse_units")
+       any(names_real_cls(n.args[1]) for n in calls), tests, "pvl.parser.ODLParser.parse_units")
     # the caller's decoder object is used as given (a rebuilt decoder would lose real_cls / quantity_cls)
     ci, fn = progp.function("pvl.parser.PVLParser.__init__")
     assigns = sorted(ast.unparse(n.value) for n in ast.walk(fn) if isinstance(n, ast.Assign)
